@@ -19,7 +19,7 @@ from ..runner import Report
 
 PROPERTY = "C12"
 LEVEL = "model_checking"
-S_, T_ = {"c": 1}, {"c": 2}
+S_, T_, E_ = {"c": 1}, {"c": 2}, {}  # E_: the empty state point is a valid state point too
 PRE = [{"pre": 1}, {"pre": 2}]
 
 
@@ -72,6 +72,7 @@ def scenario_table(root):
     return {
         "I(s)|I(s)": [I(S_), I(S_)],
         "I(s)|I(t)": [I(S_), I(T_)],
+        "I(e)|W(t)": [I(E_), W(T_, "k", 2)],
         "I(s)|L": [I(S_), L()],
         "W(s)|W(t)": [W(S_, "k", 1), W(T_, "k", 2)],
         "W(s)|R(s)": [W(S_, "k", 1), R(S_)],
@@ -83,7 +84,7 @@ def scenario_table(root):
     }
 
 
-QUICK = [("I(s)|I(s)", "empty"), ("I(s)|I(t)", "empty"), ("I(s)|L", "populated"), ("I(s)|L", "empty"), ("W(s)|W(t)", "populated"),
+QUICK = [("I(s)|I(s)", "empty"), ("I(s)|I(t)", "empty"), ("I(e)|W(t)", "populated"), ("I(s)|L", "populated"), ("I(s)|L", "empty"), ("W(s)|W(t)", "populated"),
          ("W(s)|R(s)", "populated"), ("W(s,k1)|I(s)", "empty")]
 
 
